@@ -283,3 +283,66 @@ func AddAugments(t *rapid.T, set *ymodel.Set, min, max int) map[string]int {
 	}
 	return labels
 }
+
+// AddLateAugments adds up to max augments whose target is the implicit case of a shorthand choice member or a
+// holder below one (RFC 7950 7.9.2: the case exists in the schema tree and in the path). goyang applies such an
+// augment after it has inserted the implicit cases. The augments add plain leaves and containers, never depend on
+// one another, and their targets are computed before any of them is added.
+func AddLateAugments(t *rapid.T, set *ymodel.Set, max int) int {
+	r := yref.New(set)
+	trees := r.Expand()
+	if len(r.Problems) > 0 {
+		return 0
+	}
+	k := rapid.IntRange(0, max).Draw(t, "late-augments")
+	added := 0
+	used := map[*yref.XNode]bool{}
+	for i := 0; i < k; i++ {
+		from := set.Modules[rapid.IntRange(0, len(set.Modules)-1).Draw(t, "late-augmenting-module")]
+		plain := map[*yref.XNode]bool{}
+		for _, x := range Targets(set, trees, from) {
+			plain[x.Node] = true
+		}
+		var cands []Target
+		for _, x := range AllNodes(set, trees, from) {
+			if plain[x.Node] || used[x.Node] {
+				continue
+			}
+			switch x.Node.Kind {
+			case ymodel.KCase:
+				// the path of the implicit case of a container or list member names that member as long as
+				// the case is not inserted (the library's design): only leaf and leaf-list members are taken
+				if !x.Node.Implicit {
+					continue
+				}
+				if m := x.Node.Children[x.Node.Name]; m == nil || m.Kind != ymodel.KLeaf && m.Kind != ymodel.KLeafList {
+					continue
+				}
+				cands = append(cands, x)
+			case ymodel.KContainer, ymodel.KList:
+				cands = append(cands, x)
+			}
+		}
+		if len(cands) == 0 {
+			continue
+		}
+		tg := cands[rapid.IntRange(0, len(cands)-1).Draw(t, "late-augment-target")]
+		used[tg.Node] = true
+		tag := fmt.Sprintf("late%d%s", i+1, strings.ReplaceAll(from.Name, "-", ""))
+		leaf := func(nm string) *ymodel.Node {
+			l := &ymodel.Node{Kind: ymodel.KLeaf, Name: nm, Type: &ymodel.TypeRef{Name: "string"}}
+			if !tg.InOp && rapid.IntRange(0, 3).Draw(t, "late-config") == 0 {
+				f := false
+				l.Config = &f
+			}
+			return l
+		}
+		a := &ymodel.Augment{Path: tg.Path, Body: ymodel.Body{Nodes: []*ymodel.Node{leaf(tag + "l")}}}
+		if rapid.Bool().Draw(t, "late-container") {
+			a.Nodes = append(a.Nodes, &ymodel.Node{Kind: ymodel.KContainer, Name: tag + "c", Body: ymodel.Body{Nodes: []*ymodel.Node{leaf(tag + "cl")}}})
+		}
+		from.Augments = append(from.Augments, a)
+		added++
+	}
+	return added
+}
